@@ -1,2 +1,170 @@
-(* C14 placeholder during construction *)
-From PD Require Import Base.Field Base.Matrix.
+(* C14 -- State-space factorisations agree wherever theory says they must.
+
+   The dense model stores a state with n = q+1 Taylor coefficients of a
+   d-dimensional problem as a vector of length n*d in coefficient-major order
+   (index i*d + a); the isotropic model stores the n x d matrix of means and ONE
+   n x n covariance shared by all dimensions; the block-diagonal model stores d
+   blocks.  The theorems below say that the dense model is the Kronecker
+   embedding  A |-> A (x) I_d  (Base/Matrix.v: kronI) of the isotropic one:
+     means       : ravel   (n x d matrix  |->  column of length n*d)
+     covariances : kronI
+     conditionals: embed_cond (A, Q: kronI; offset: ravel; preconditioners repeated)
+   and that every operation of Model/Gauss.v used by prediction commutes with
+   the embedding.  All statements hold over an arbitrary field, for all sizes
+   n, k, m, d (d = 0 included: everything is empty) and all matrices.
+
+   Not proved here (covered by the correspondence harness harness/c14.py on
+   the real implementation only): the embedding of the correction step needs
+   the inverse of S (x) I_d to be (S^-1) (x) I_d -- C14_inverse_of_embedding
+   proves exactly this for the certified inverse, and C14_revert_embeds lifts
+   it to the reversal of a conditional -- but the full multi-step solver
+   statement (all strategies, all calibration modes, adaptive step selection)
+   is established by comparison of the implementations, not by a theorem. *)
+From Coq Require Import List Arith.
+From PD Require Import Base.Field Base.Matrix Base.Solve Model.Gauss Model.Prior
+  Proofs.GaussProofs Proofs.EmbedProofs.
+Import ListNotations.
+
+Section C14.
+  Context {F : Type} `{FL : FieldLaws F}.
+
+  (* ---- T14.a: the Kronecker embedding is a homomorphism ---- *)
+  Theorem C14_kronecker_embedding_of_products :
+    forall n k m d (A B : @mat F),
+      mmul (n * d) (k * d) (m * d) (kronI n k d A) (kronI k m d B)
+      = kronI n m d (mmul n k m A B).
+  Proof. exact kronI_mmul. Qed.
+
+  Theorem C14_kronecker_embedding_of_transposes :
+    forall n m d (A : @mat F),
+      mtr (n * d) (m * d) (kronI n m d A) = kronI m n d (mtr n m A).
+  Proof. exact kronI_mtr. Qed.
+
+  Theorem C14_kronecker_embedding_of_sums :
+    forall n m d (A B : @mat F),
+      madd (n * d) (m * d) (kronI n m d A) (kronI n m d B) = kronI n m d (madd n m A B).
+  Proof. exact kronI_madd. Qed.
+
+  Theorem C14_kronecker_embedding_of_differences :
+    forall n m d (A B : @mat F),
+      msub (n * d) (m * d) (kronI n m d A) (kronI n m d B) = kronI n m d (msub n m A B).
+  Proof. exact kronI_msub. Qed.
+
+  Theorem C14_kronecker_embedding_of_scalings :
+    forall n m d (c : F) (A : @mat F),
+      mscale (n * d) (m * d) c (kronI n m d A) = kronI n m d (mscale n m c A).
+  Proof. exact kronI_mscale. Qed.
+
+  Theorem C14_kronecker_embedding_of_identity :
+    forall n d, kronI n n d (@mid F _ n) = mid (n * d).
+  Proof. exact kronI_mid. Qed.
+
+  Theorem C14_kronecker_embedding_of_sandwich :
+    forall n m d (A P : @mat F),
+      sandwich (n * d) (m * d) (kronI n m d A) (kronI m m d P)
+      = kronI n n d (sandwich n m A P).
+  Proof. exact kronI_sandwich. Qed.
+
+  (* ---- T14.b: the dense IWP transition is the embedded 1-d transition when
+     all base scales are equal (the isotropic prior uses base^2 * output^2) ---- *)
+  Theorem C14_dense_transition_is_embedded_isotropic_transition :
+    forall q d (base2 : @vec F) (s dt out2 : F),
+      (forall a, a < d -> vget base2 a = s) ->
+      iwp_transition_dense q d base2 dt out2
+      = embed_cond (S q) (S q) d (iwp_transition_1d q d dt (fmul s out2)).
+  Proof. exact iwp_transition_dense_is_embedding. Qed.
+
+  (* the dense TS0 observation matrix selects derivative k of every dimension:
+     it is the embedding of the 1 x (q+1) selector of the isotropic model *)
+  Theorem C14_dense_ts0_observation_is_embedded_selector :
+    forall q d k,
+      mk (1 * d) (S q * d) (fun r col => (delta (k * d + r) col : F))
+      = kronI 1 (S q) d (mk 1 (S q) (fun _ col => delta k col)).
+  Proof. exact ts0_selector_is_embedding. Qed.
+
+  (* ---- T14.c: the embedding commutes with marginalisation (prediction),
+     application to a point, and merging of conditionals ---- *)
+  Theorem C14_embedding_commutes_with_marginalisation :
+    forall nin nout d (K : @cond F) (rv : @normal F),
+      c_marg (nin * d) (nout * d) 1 (embed_cond nin nout d K) (embed_normal nin d rv)
+      = embed_normal nout d (c_marg nin nout d K rv).
+  Proof. exact c_marg_embed. Qed.
+
+  Theorem C14_embedding_commutes_with_application :
+    forall nin nout d (K : @cond F) (x : @mat F),
+      c_apply (nin * d) (nout * d) 1 (embed_cond nin nout d K) (ravel nin d x)
+      = embed_normal nout d (c_apply nin nout d K x).
+  Proof. exact c_apply_embed. Qed.
+
+  Theorem C14_embedding_commutes_with_merge :
+    forall nin nmid nout d (K1 K2 : @cond F),
+      c_merge (nin * d) (nmid * d) (nout * d) 1
+              (embed_cond nmid nout d K1) (embed_cond nin nmid d K2)
+      = embed_cond nin nout d (c_merge nin nmid nout d K1 K2).
+  Proof. exact c_merge_embed. Qed.
+
+  (* the certified inverse of an embedded matrix is the embedded inverse ... *)
+  Theorem C14_inverse_of_embedding :
+    forall n d (Sm Si X : @mat F),
+      minv n Sm = Some Si ->
+      minv (n * d) (kronI n n d Sm) = Some X ->
+      X = kronI n n d Si.
+  Proof. exact minv_kronI. Qed.
+
+  (* ... hence reversal (the correction step / the smoother's backward
+     kernel) of an embedded conditional is the embedded reversal, whenever both
+     certified inverses exist *)
+  Theorem C14_revert_embeds :
+    forall nin nout d (K : @cond F) (rv obs : @normal F) (bw : @cond F)
+           (obsD : @normal F) (bwD : @cond F),
+      c_revert minv nin nout d K rv = Some (obs, bw) ->
+      c_revert minv (nin * d) (nout * d) 1 (embed_cond nin nout d K) (embed_normal nin d rv)
+      = Some (obsD, bwD) ->
+      obsD = embed_normal nout d obs /\ bwD = embed_cond nout nin d bw.
+  Proof. exact c_revert_embed. Qed.
+
+  (* ---- T14.d: the block-diagonal MLE scale is the per-dimension split of the
+     same residual energy: if the dense innovation covariance is diagonal with
+     the blocks' variances on the diagonal and the residuals coincide, then the
+     dense squared whitened RMS is the mean of the blocks' squared whitened RMS
+     (dense_scale^2 = mean_a blockdiag_scale_a^2) ---- *)
+  Theorem C14_blockdiag_mle_scale_is_split_of_dense_residual_energy :
+    forall d (rvD : @normal F) (uD : @mat F)
+           (rvB : nat -> @normal F) (uB : nat -> @mat F) (rho : F) (rhob : nat -> F),
+      d <> 0 ->
+      (forall a b, a < d -> b < d ->
+         mget (n_cov rvD) a b = if Nat.eqb a b then mget (n_cov (rvB a)) 0 0 else f0) ->
+      (forall a, a < d ->
+         fsub (mget uD a 0) (mget (n_mean rvD) a 0)
+         = fsub (mget (uB a) 0 0) (mget (n_mean (rvB a)) 0 0)) ->
+      whitened_rms2 minv d 1 rvD uD = Some rho ->
+      (forall a, a < d -> whitened_rms2 minv 1 1 (rvB a) (uB a) = Some (rhob a)) ->
+      rho = fdiv (vsum d rhob) (fnat d).
+  Proof. exact mle_scale_split. Qed.
+
+  (* arithmetic core for blocks with k data each:
+     (1/(k d)) sum_a r_a = (1/d) sum_a (r_a / k) *)
+  Theorem C14_mean_of_block_means :
+    forall k d (r : nat -> F),
+      k <> 0 -> d <> 0 ->
+      fdiv (vsum d r) (fmul (fnat k) (fnat d))
+      = fdiv (vsum d (fun a => fdiv (r a) (fnat k))) (fnat d).
+  Proof. exact mean_of_block_means. Qed.
+End C14.
+
+Print Assumptions C14_kronecker_embedding_of_products.
+Print Assumptions C14_kronecker_embedding_of_transposes.
+Print Assumptions C14_kronecker_embedding_of_sums.
+Print Assumptions C14_kronecker_embedding_of_differences.
+Print Assumptions C14_kronecker_embedding_of_scalings.
+Print Assumptions C14_kronecker_embedding_of_identity.
+Print Assumptions C14_kronecker_embedding_of_sandwich.
+Print Assumptions C14_dense_transition_is_embedded_isotropic_transition.
+Print Assumptions C14_dense_ts0_observation_is_embedded_selector.
+Print Assumptions C14_embedding_commutes_with_marginalisation.
+Print Assumptions C14_embedding_commutes_with_application.
+Print Assumptions C14_embedding_commutes_with_merge.
+Print Assumptions C14_inverse_of_embedding.
+Print Assumptions C14_revert_embeds.
+Print Assumptions C14_blockdiag_mle_scale_is_split_of_dense_residual_energy.
+Print Assumptions C14_mean_of_block_means.
